@@ -808,6 +808,15 @@ nni_aio_expire_loop(void *arg)
 
 		for (uint32_t i = 0; i < exp_idx; i++) {
 			aio = expires[i];
+			// The lock is dropped while cancel functions run, so
+			// this operation may have completed meanwhile - and a
+			// new one with a later deadline may have been started
+			// on the same aio.  Expire only what is still due.
+			if ((!q->eq_stop) && (aio->a_expire >= now)) {
+				aio->a_expiring = false;
+				continue;
+			}
+			nni_aio_expire_rm(aio);
 			if (q->eq_stop) {
 				rv          = NNG_ESTOPPED;
 				aio->a_stop = true;
